@@ -55,7 +55,7 @@ type c18Params struct {
 	Site    int    `json:"site,omitempty"`    // run: 0 mixed call-site forms, k>0 every call site of form k-1
 	NoTrail bool   `json:"no_trailing_eol,omitempty"`
 	Other   int    `json:"other_handlers,omitempty"` // run: 1 = every method on the way (and the main program) has a 拦截 block for ANOTHER exception class; 2 = an imported module 影 exports methods named like the program's own
-	Rune    int    `json:"rune,omitempty"` // wid: the character in front of the offending one
+	Rune    int    `json:"rune,omitempty"`           // wid: the character in front of the offending one
 }
 
 var c18EOLs = []string{"\n", "\r\n", "\r"}
